@@ -14,13 +14,32 @@ import (
 const NoValue = "<no value>"
 
 // Interp holds the state that outlives one invocation: the [next] counters,
-// one per scenario and indexed array path.
+// one per scenario and indexed array path - and, for a request that several
+// scenarios list, one per indexed array path for all of them: the rows such a
+// request takes are consecutive over all its executions, whichever scenario runs it
+// (the documented purpose of [next], e.g. a common login step taking the next user).
 type Interp struct {
-	P    *Program
-	next map[string]int
+	P      *Program
+	next   map[string]int
+	listed map[string]int // request -> number of scenarios that list it
 }
 
-func New(p *Program) *Interp { return &Interp{P: p, next: map[string]int{}} }
+func New(p *Program) *Interp {
+	it := &Interp{P: p, next: map[string]int{}, listed: map[string]int{}}
+	for _, sc := range p.Scenarios {
+		seen := map[string]bool{}
+		for _, st := range sc.Steps {
+			if !st.Sleep && !seen[st.Name] {
+				seen[st.Name] = true
+				it.listed[st.Name]++
+			}
+		}
+	}
+	return it
+}
+
+// SharedByScenarios reports whether several scenarios list the request.
+func (it *Interp) SharedByScenarios(request string) bool { return it.listed[request] >= 2 }
 
 type stepVars struct {
 	pre  map[string]any
@@ -51,8 +70,10 @@ func (it *Interp) Begin(scenario string) *Invocation {
 // NextUse records a row handed out by [next].
 type NextUse struct {
 	Path string // scenario-independent array path, e.g. "source.users[next]"
-	Seq  int    // how many times the path was used before in this scenario
+	Seq  int    // how many times the path was used before in this scenario (Shared: in all scenarios)
 	Row  int    // Seq mod number of rows
+	// Shared: the request is listed by several scenarios, the counter is common to all of them.
+	Shared bool
 }
 
 // Rendered is a request as it must appear on the wire.
@@ -119,7 +140,7 @@ func (inv *Invocation) Step() *StepOut {
 	if len(def.Pre) > 0 {
 		pre := map[string]any{}
 		for _, m := range def.Pre {
-			v, use, err := inv.evalPre(m)
+			v, use, err := inv.evalPre(def, m)
 			if use != nil {
 				out.Next = append(out.Next, *use)
 			}
@@ -222,7 +243,7 @@ func assertReply(p Post, rep Reply) string {
 
 // ---- preprocessor ----
 
-func (inv *Invocation) evalPre(m PreMap) (any, *NextUse, error) {
+func (inv *Invocation) evalPre(def *Request, m PreMap) (any, *NextUse, error) {
 	switch m.Kind {
 	case PreSrcVar:
 		s := inv.it.P.Source(m.Source)
@@ -247,10 +268,14 @@ func (inv *Invocation) evalPre(m PreMap) (any, *NextUse, error) {
 		switch m.Index {
 		case "next":
 			key := inv.sc.Name + "\x00" + m.ArrayPath()
+			shared := inv.it.SharedByScenarios(def.Name)
+			if shared {
+				key = "\x00\x00" + m.ArrayPath()
+			}
 			seq := inv.it.next[key]
 			inv.it.next[key] = seq + 1
 			row = seq % len(s.Rows)
-			use = &NextUse{Path: m.ArrayPath(), Seq: seq, Row: row}
+			use = &NextUse{Path: m.ArrayPath(), Seq: seq, Row: row, Shared: shared}
 		case "last":
 			row = len(s.Rows) - 1
 		default:
